@@ -213,6 +213,52 @@ def run(tier, replay):
         if not m:
             break
         ln, tot = int(m.group(1)), int(m.group(2))
+    # ---- every scheme-level path of the nuclides that have daughters (and one witness per edge of all others): the rare
+    #      branches decide whether a daughter is chained (Bi212/Bi214: unless the event starts with an alpha)
+    import c01
+    cexe = c01.cosim_exe()
+    pj = []
+    pubmap = {n.split("+")[0]: n for n in lis_b}
+    for base, chain in S.bkg_names().items():
+        k0 = chain[0][0]
+        paths = S.all_paths(k0) if len(chain) > 1 else [p_ for (_e, p_) in S.witness_paths(k0)]
+        for p_ in paths:
+            pj.append(sch.bjob("%s.%d" % (base, len(pj)), pubmap.get(base, base), 1 + len(pj), [S.plan(k0, p_)]))
+    gfile = os.path.join(wd, "genbb_paths.ndjson")
+    nshp = 4
+    gfiles = [gfile + ".%d" % i for i in range(nshp)]
+
+    def gshard(i):
+        return vlib.sh([cexe, "--gb-trace", gfiles[i]], input="\n".join(pj[i::nshp]) + "\n", timeout=900, env=env)
+    import concurrent.futures as cf
+    with cf.ThreadPoolExecutor(max_workers=nshp) as ex:
+        for rc_, out_ in ex.map(gshard, range(nshp)):
+            if rc_ != 0:
+                ck.violation("cosim-crash", "co-simulation harness died (rc=%s): %s" % (rc_, out_[-400:]), None)
+    for gf in gfiles:
+        rr2 = vlib.tlc("MCTraceGenbb", "MCTraceGenbb.cfg", workers=1, env={"TRACE": gf}, timeout=900)
+        m2 = re.search(r'furthest-line", (\d+), "of", (\d+)', rr2.out)
+        if not m2:
+            raise vlib.InfraError("TraceGenbb(paths): " + (rr2.error or rr2.out[-600:]))
+        ck.tlc_stats(rr2, None)
+        ln2, tot2 = int(m2.group(1)), int(m2.group(2))
+        ck.add("trace_lines_validated_by_tlc", tot2)
+        if ln2 <= tot2:
+            ls2 = open(gf).read().splitlines()
+            st2 = ln2 - 1
+            while st2 > 0 and '"Reset"' not in ls2[st2]:
+                st2 -= 1
+            en2 = ln2
+            while en2 < len(ls2) and '"Reset"' not in ls2[en2]:
+                en2 += 1
+            ex2 = ls2[st2:en2]
+            g2 = [json.loads(x) for x in ex2 if '"Genbb"' in x]
+            nm2 = g2[0]["name"] if g2 else "?"
+            seq2 = [(json.loads(x)["s"], json.loads(x)["alpha"]) for x in ex2 if '"Enter"' in x]
+            ck.violation("%s:dispatch:path:%s" % (nm2, "+".join(s_ for (s_, _a) in seq2)),
+                         "on a steered scheme path the name '%s' entered %s (alpha-first flag %s); Genbb.tla allows %s" % (
+                             nm2, [s_ for (s_, _a) in seq2], seq2[0][1] if seq2 else "?", [r_ for (r_, _, _o) in bkg.get(nm2, [])]), {"trace": ex2})
+    ck.set("steered_paths_dispatched", len(pj))
     # ---- bit-equality with the direct composition of the scheme routines
     xl = []
     for n in lis_b:
